@@ -188,6 +188,20 @@ def rename(stmts: list, ren: dict) -> list:
 
 def inline_macros(prog: list, const_names: set[str] | None = None) -> tuple[list, dict]:
     stats = {"applications": 0, "deferred_bindings": 0, "block_arguments": 0, "max_depth": 0}
+    # A code-block argument is expanded inside the application, where its names meet the callee's parameters. When a block
+    # mentions a name that is a parameter of a block-splicing macro, which definition it means depends on the nesting of
+    # applications in a way a one-pass renaming cannot reproduce: such programs are judged by the reference expansion only.
+    splicing_params: set[str] = set()
+    block_names: set[str] = set()
+    for st, _, _ in walk(prog):
+        if st["k"] == "macro" and any(x["k"] == "splice" for x, _, _ in walk(st["b"])):
+            splicing_params |= set(st["ps"])
+        if st["k"] == "call":
+            for a in st["as"]:
+                if isinstance(a, dict):
+                    block_names |= _all_expr_names(a["blk"])
+    if splicing_params & block_names:
+        raise NoTwin("a code-block argument mentions the name of a parameter of a block-splicing macro")
     macros: dict[str, dict] = {}
     fresh = [0]
 
@@ -217,13 +231,20 @@ def inline_macros(prog: list, const_names: set[str] | None = None) -> tuple[list
                 ren = {p: fresh_name(p) for p in m["ps"]}
                 for nm in _defined_names(m["b"]):
                     ren.setdefault(nm, fresh_name(nm))
-                body = rename(copy.deepcopy(m["b"]), ren)
+                # a code-block argument is expanded where the parameter is spliced, i.e. inside the application: its names
+                # meet the parameters and the body's own names exactly as written, so it is spliced before the renaming
+                body = copy.deepcopy(m["b"])
+                for p, a in zip(m["ps"], st["as"]):
+                    if isinstance(a, dict):
+                        stats["block_arguments"] += 1
+                        body = _splice(body, p, a["blk"])
+                        if p in _all_expr_names(body):
+                            raise NoTwin("a code-block parameter is used as a value")
+                body = rename(body, ren)
                 binds: list = []
                 inner_consts = set(consts)
                 for p, a in zip(m["ps"], st["as"]):
                     if isinstance(a, dict):
-                        stats["block_arguments"] += 1
-                        body = _splice(body, ren[p], a["blk"])
                         continue
                     names = [t[1] for t in a if t[0] == "sym"]
                     if all(n in consts for n in names):
@@ -249,6 +270,25 @@ def inline_macros(prog: list, const_names: set[str] | None = None) -> tuple[list
         return out
 
     return go(prog, set(const_names or ()), 0), stats
+
+
+def _all_expr_names(stmts: list) -> set[str]:
+    out: set[str] = set()
+    for st, _, _ in walk(stmts):
+        for key in ("e", "c", "a", "delta"):
+            v = st.get(key)
+            if isinstance(v, list) and v and isinstance(v[0], list) and v[0] and v[0][0] in ("num", "sym", "un", "op", "lp", "rp"):
+                out |= {t[1] for t in v if t[0] == "sym"}
+        if st["k"] == "for":
+            out |= {t[1] for t in st["b"] if t[0] == "sym"}
+        if st["k"] == "data":
+            for e in st["es"]:
+                out |= {t[1] for t in e if t[0] == "sym"}
+        if st["k"] == "call":
+            for a in st["as"]:
+                if isinstance(a, list):
+                    out |= {t[1] for t in a if t[0] == "sym"}
+    return out
 
 
 def _splice(stmts: list, pname: str, block: list) -> list:
